@@ -69,7 +69,7 @@ example : skipSelection [] [⟨"skip", .var "v"⟩] = .error (.internal "Coercio
 
 /-! ## grouped fields: one group per response key, keys in first-occurrence order -/
 
-theorem extend_keys (g : Grouped) (k : String) (ns : List FNode) :
+private theorem extend_keys (g : Grouped) (k : String) (ns : List FNode) :
     (g.extend k ns).keys = if k ∈ g.keys then g.keys else g.keys ++ [k] := by
   induction g with
   | nil => simp [Grouped.extend, Grouped.keys]
@@ -88,7 +88,7 @@ theorem extend_keys (g : Grouped) (k : String) (ns : List FNode) :
       · simp [hc, hne]
 
 /-- adding nodes never creates a second group for a key -/
-theorem extend_nodup (g : Grouped) (k : String) (ns : List FNode) (h : g.keys.Nodup) :
+private theorem extend_nodup (g : Grouped) (k : String) (ns : List FNode) (h : g.keys.Nodup) :
     (g.extend k ns).keys.Nodup := by
   rw [extend_keys]
   by_cases hc : k ∈ g.keys
@@ -102,17 +102,17 @@ theorem extend_nodup (g : Grouped) (k : String) (ns : List FNode) (h : g.keys.No
     exact hc ha
 
 /-- existing keys keep their position (document order of first occurrence is never disturbed) -/
-theorem extend_keys_prefix (g : Grouped) (k : String) (ns : List FNode) :
+private theorem extend_keys_prefix (g : Grouped) (k : String) (ns : List FNode) :
     g.keys <+: (g.extend k ns).keys := by
   rw [extend_keys]; split <;> simp
 
-theorem mergeInto_nodup (src into : Grouped) (h : into.keys.Nodup) : (src.mergeInto into).keys.Nodup := by
+private theorem mergeInto_nodup (src into : Grouped) (h : into.keys.Nodup) : (src.mergeInto into).keys.Nodup := by
   unfold Grouped.mergeInto
   induction src generalizing into with
   | nil => simpa
   | cons kv rest ih => simp only [List.foldl_cons]; exact ih _ (extend_nodup _ _ _ h)
 
-theorem mergeInto_keys_prefix (src into : Grouped) : into.keys <+: (src.mergeInto into).keys := by
+private theorem mergeInto_keys_prefix (src into : Grouped) : into.keys <+: (src.mergeInto into).keys := by
   unfold Grouped.mergeInto
   induction src generalizing into with
   | nil => simp
@@ -123,7 +123,7 @@ theorem mergeInto_keys_prefix (src into : Grouped) : into.keys <+: (src.mergeInt
 /-- invariant of a grouped field set: every node sits in the group of its own response key -/
 def KeysOk (g : Grouped) : Prop := ∀ kv ∈ g, ∀ n ∈ kv.2, n.key = kv.1
 
-theorem extend_keysOk (g : Grouped) (k : String) (ns : List FNode) (hg : KeysOk g) (hn : ∀ n ∈ ns, n.key = k) :
+private theorem extend_keysOk (g : Grouped) (k : String) (ns : List FNode) (hg : KeysOk g) (hn : ∀ n ∈ ns, n.key = k) :
     KeysOk (g.extend k ns) := by
   induction g with
   | nil => intro kv hkv n hn'; simp [Grouped.extend] at hkv; subst hkv; exact hn n hn'
@@ -149,7 +149,7 @@ theorem extend_keysOk (g : Grouped) (k : String) (ns : List FNode) (hg : KeysOk 
       · exact hg (k', ms) (by simp) n hn'
       · exact ih (fun kv hkv => hg kv (by simp [hkv])) kv hkv n hn'
 
-theorem mergeInto_keysOk (src into : Grouped) (hs : KeysOk src) (hi : KeysOk into) : KeysOk (src.mergeInto into) := by
+private theorem mergeInto_keysOk (src into : Grouped) (hs : KeysOk src) (hi : KeysOk into) : KeysOk (src.mergeInto into) := by
   unfold Grouped.mergeInto
   induction src generalizing into with
   | nil => simpa
@@ -493,7 +493,7 @@ def isPossibleTypeC (s : SchemaD) (cache : PCache) (abstract obj : String) : Boo
 
 def CacheOk (s : SchemaD) (cache : PCache) : Prop := ∀ kv ∈ cache, kv.2 = possibleTypes s kv.1
 
-theorem cache_step (s : SchemaD) (cache : PCache) (n : String) (h : CacheOk s cache) :
+private theorem cache_step (s : SchemaD) (cache : PCache) (n : String) (h : CacheOk s cache) :
     (getPossibleTypesC s cache n).1 = possibleTypes s n ∧ CacheOk s (getPossibleTypesC s cache n).2 := by
   unfold getPossibleTypesC
   cases hf : cache.find? (·.1 == n) with
@@ -515,7 +515,7 @@ def afterHistory (s : SchemaD) : PCache → List String → PCache
   | c, [] => c
   | c, n :: rest => afterHistory s (getPossibleTypesC s c n).2 rest
 
-theorem afterHistory_ok (s : SchemaD) (c : PCache) (hist : List String) (h : CacheOk s c) : CacheOk s (afterHistory s c hist) := by
+private theorem afterHistory_ok (s : SchemaD) (c : PCache) (hist : List String) (h : CacheOk s c) : CacheOk s (afterHistory s c hist) := by
   induction hist generalizing c with
   | nil => exact h
   | cons n rest ih => exact ih _ (cache_step s c n h).2
